@@ -1156,6 +1156,15 @@ func TranslateFn(w *World, fn *ssa.Function) *FnVC {
 			f.unsupported("%s", e)
 		}
 	}
+	// obligation names are identifiers (query files, known findings, evidence): two clauses
+	// carrying the same label get distinct names
+	seenName := map[string]int{}
+	for _, o := range f.vc.Obls {
+		seenName[o.Name]++
+		if k := seenName[o.Name]; k > 1 {
+			o.Name = fmt.Sprintf("%s~%d", o.Name, k)
+		}
+	}
 	return f.vc
 }
 
